@@ -69,11 +69,17 @@ Decode(c) == Apply(c, Len(c) - 1, c[Len(c)])
 
 Value      == IF done THEN Decode(chain) = k ELSE Apply(chain, Len(chain), kk) = k
 NoOverflow == ~ovf
-LenBound   == Len(chain) <= W \div 2                \* the code: [i8; 32] for W = 64
+LenBound   == Len(chain) <= (W \div 2) + 1          \* the code: [i8; 33] for W = 64
+\* the bound the code's comment states ("never more than 32"): NOT an invariant - scalars whose top
+\* nibble is 9, B, D or F above nibbles that all cost two opcodes need W/2 + 1 (found by TLC; the
+\* buffer was 32 long until the fix)
+LenBoundClaimed == Len(chain) <= W \div 2
+\* (G) the scalars with the longest chains are printed and replayed, scaled to 64 bits, into the real code
+PrintLongest == (done /\ Len(chain) = (W \div 2) + 1) => PrintT(<<"LONG", k>>)
 OpRange    == \A i \in 1..Len(chain) :
                  IF chain[i] % 2 = 0 THEN chain[i] >= 2 /\ chain[i] <= 2 * (W - 1)
                  ELSE chain[i] >= -7 /\ chain[i] <= 7
 StartOp    == done => chain[Len(chain)] \in {1, 3, 5, 7}
 \* an i8 holds the largest opcode of the 64-bit code: 2 * 63
-OpFitsI8   == 2 * (64 - 1) <= 127
+ASSUME OpFitsI8 == 2 * (64 - 1) <= 127
 =============================================================================
